@@ -12,6 +12,11 @@ Tables written (Properties_C12.v proves that they are exactly what GlobalDefs.v 
   flatten_writes_library : updateComponentsVariablesUnitsNames redirects a variable to importSource()->model()
   analyser_starts_fresh  : Analyser::analyseModel creates a new AnalyserModel before its first test
 
+  instance_members  : (Impl class, member variable, true iff the member is assigned / cleared UNCONDITIONALLY — a statement at
+                      the top nesting level of the function body — in one of the head functions of that class listed in
+                      IMPL_CLASSES) for every member variable of the private implementation classes of the services:
+                      the per-instance state that survives from one call to the next
+
 Fails loudly when the shape of the source is not the expected one.
 """
 import os
@@ -34,6 +39,71 @@ ENTRY_POINTS = [
     ("annotator.cpp", "Annotator::AnnotatorImpl::update"),
     ("printer.cpp", "Printer::printModel"),
 ]
+
+
+# private implementation class -> (file that defines it, functions at whose top level a per-call member must be (re)initialised)
+IMPL_CLASSES = [
+    ("Logger::LoggerImpl", "logger_p.h", [("logger.cpp", "Logger::LoggerImpl::removeAllIssues")]),
+    ("Parser::ParserImpl", "parser.cpp", [("parser.cpp", "Parser::ParserImpl::parseModel"), ("parser.cpp", "Parser::ParserImpl::loadModel")]),
+    ("Validator::ValidatorImpl", "validator.cpp", [("validator.cpp", "Validator::validateModel")]),
+    ("Analyser::AnalyserImpl", "analyser.cpp", [("analyser.cpp", "Analyser::analyseModel"), ("analyser.cpp", "Analyser::AnalyserImpl::analyseModel")]),
+    ("Generator::GeneratorImpl", "generator_p.h", [("generator.cpp", "Generator::GeneratorImpl::reset")]),
+    ("Printer::PrinterImpl", "printer.cpp", [("printer.cpp", "Printer::printModel")]),
+    ("Importer::ImporterImpl", "importer.cpp", [("importer.cpp", "Importer::resolveImports"), ("importer.cpp", "Importer::flattenModel")]),
+    ("Annotator::AnnotatorImpl", "annotator.cpp", [("annotator.cpp", "Annotator::AnnotatorImpl::update"), ("annotator.cpp", "Annotator::AnnotatorImpl::buildIdList")]),
+    ("Strict::StrictImpl", "strict.cpp", []),
+]
+
+
+def class_members(lines, cls):
+    """member variables declared at the top level of `class/struct <cls> ... { ... };` (libcellml style: braces of the class at column 0)"""
+    start = None
+    for i, l in enumerate(lines):
+        if re.match(r"^(class|struct)\s+%s\b[^;]*$" % re.escape(cls), l):
+            start = i
+            break
+    if start is None:
+        raise RuntimeError("implementation class %s not found" % cls)
+    i = start
+    while i < len(lines) and lines[i].rstrip() != "{":
+        i += 1
+    # statements at depth 1 of the class body (a declaration may span several lines)
+    body = "\n".join(lines[i:])
+    depth, members, cur = 0, [], ""
+    for ch in body:
+        if ch == "{":
+            depth += 1
+            if depth == 2:
+                cur += "{"
+            continue
+        if ch == "}":
+            depth -= 1
+            if depth == 0:
+                return members
+            if depth == 1:
+                # end of a nested block: an in-class function body / nested class / brace initialiser
+                if not re.search(r"=\s*\{$|[\w>]\s*\{$", cur.strip()) or "(" in cur:
+                    cur = ""
+                else:
+                    cur += "}"
+            continue
+        if depth != 1:
+            continue
+        if ch == ";":
+            st = " ".join(cur.split())
+            cur = ""
+            st = re.sub(r"^(public|private|protected)\s*:\s*", "", st)
+            if not st or st.startswith(("using ", "typedef ", "friend ", "static ", "enum ", "class ", "struct ", "virtual ", "explicit ", "~")):
+                continue
+            head = re.split(r"[={]", st)[0]
+            if "(" in head:
+                continue
+            m = re.search(r"([A-Za-z_]\w*)\s*(\[[^\]]*\])?$", head.strip())
+            if m:
+                members.append(m.group(1))
+        else:
+            cur += ch
+    raise RuntimeError("end of implementation class %s not found" % cls)
 
 
 def strip_comments(text):
@@ -168,6 +238,22 @@ def run(repo, gendir):
     first_test = body.find("if (")
     analyser_starts_fresh = bool(m) and m.start() < first_test
 
+    instance_members = []
+    for cls, f, heads in IMPL_CLASSES:
+        text = strip_comments(open(os.path.join(src, f), encoding="utf-8", errors="replace").read())
+        names = class_members(text.split("\n"), cls)
+        if cls != "Validator::ValidatorImpl" and cls != "Printer::PrinterImpl" and not names:
+            raise RuntimeError("no member variable found in %s" % cls)
+        head_bodies = []
+        for hf, hn in heads:
+            b = bodies.get((hf, hn))
+            if b is None:
+                raise RuntimeError("head function %s not found in %s" % (hn, hf))
+            head_bodies.append(b)
+        for m in names:
+            pat = re.compile(r"^    (?:pFunc\(\)->|this->)?%s(?:\s*=[^=]|\.clear\(\)|\.reset\(|\s*\{)" % re.escape(m), re.M)
+            instance_members.append((cls, m, any(pat.search(b) for b in head_bodies)))
+
     def lst(items, fmt):
         return "[" + ";\n   ".join(fmt(x) for x in items) + "]"
 
@@ -181,6 +267,8 @@ def run(repo, gendir):
            lst(sorted(statics), lambda x: "(%s, %s, %s)" % tuple(coq_str(y) for y in x)), "",
            "Definition reset_sites : list (string * bool) :=\n  %s." %
            lst(resets, lambda x: "(%s, %s)" % (coq_str(x[0]), "true" if x[1] else "false")), "",
+           "Definition instance_members : list (string * string * bool) :=\n  %s." %
+           lst(instance_members, lambda x: "(%s, %s, %s)" % (coq_str(x[0]), coq_str(x[1]), "true" if x[2] else "false")), "",
            "Definition flatten_writes_library : bool := %s." % ("true" if flatten_writes_library else "false"),
            "Definition analyser_starts_fresh : bool := %s." % ("true" if analyser_starts_fresh else "false"), ""]
     text = "\n".join(out)
